@@ -39,7 +39,8 @@ ESSENTIAL_LABELS = {'all': ['multi_dest', 'subgroup', 'iterate_min>=1',
                             'hook:initialize_pair', 'hook:reduce',
                             'hook:py_initialize', 'pre_post',
                             'idx_by_name', 'openmp', 'periodic_ghosts',
-                            'mirror_ghosts']}
+                            'mirror_ghosts',
+                            'pair_init_mixed_sources']}
 SHARD_TIMEOUT = {'quick': 1500, 'thorough': 6 * 3600}
 
 CLASSES = ['TI', 'TL', 'TIL', 'TILP', 'TA', 'TPA', 'TP', 'TR', 'TLR', 'TPY',
@@ -152,6 +153,24 @@ def program_strategy(draw, force_periodic=False):
                    post=False, update_nnps=False, iterate=False, min_it=0,
                    max_it=1)
         groups[pos:pos] = [nudge, dep]
+    if narr >= 2 and draw(st.integers(0, 1)) == 0:
+        # per-source hooks: two equations of one destination with
+        # initialize_pair that list different sources (each must run for its
+        # own sources only, with that source's arrays)
+        d = dests[draw(st.integers(0, len(dests) - 1))]
+        s0, s1 = names[0], names[1]
+        eqs = [dict(cls='TPA', dest=d, sources=[s0],
+                    k=draw(st.integers(1, 9))),
+               dict(cls='TPA', dest=d, sources=[s1],
+                    k=draw(st.integers(1, 9)))]
+        if draw(st.booleans()):
+            eqs.insert(draw(st.integers(0, 2)),
+                       dict(cls='TL', dest=d, sources=list(names),
+                            k=draw(st.integers(1, 9))))
+        groups.insert(draw(st.integers(0, len(groups))), dict(
+            kind='leaf', eqs=eqs, real=True, start=0, stop=None, cond=None,
+            pre=False, post=False, update_nnps=False, iterate=False,
+            min_it=0, max_it=1))
     periodic = force_periodic or (dim == 2 and
                                   draw(st.integers(0, 2)) == 0)
     if periodic is True and not force_periodic:
@@ -329,6 +348,10 @@ def program_features(prog):
             feats.add('pre_post')
         if l['update_nnps'] and gi < len(prog['groups']) - 1:
             feats.add('update_nnps_then_group')
+        pi = [(e['dest'], tuple(sorted(e['sources'] or ())))
+              for e in l['eqs'] if e['cls'] == 'TPA']
+        if any(a[0] == b[0] and a[1] != b[1] for a in pi for b in pi):
+            feats.add('pair_init_mixed_sources')
         for e in l['eqs']:
             if e['sources'] and len(e['sources']) >= 2:
                 feats.add('multi_source')
